@@ -156,6 +156,8 @@ pub fn append_rule(rule: Arc<Rule>) -> bool {
         .filter(|r| r.is_valid().is_ok())
         .cloned()
         .collect();
+    #[cfg(feature = "verif_hooks")]
+    crate::verif::sync::sync_point(4);
     let mut breaker_map = BREAKER_MAP.write().unwrap();
     let mut placeholder = Vec::new();
     // the breakers of the resource are rebuilt from all of its rules (reusing the existing ones),
@@ -246,6 +248,8 @@ pub fn load_rules(rules: Vec<Arc<Rule>>) -> bool {
         )
     }
 
+    #[cfg(feature = "verif_hooks")]
+    crate::verif::sync::sync_point(5);
     *BREAKER_RULES.write().unwrap() = valid_rules_map;
     *global_breaker_map = valid_breaker_map;
     *global_rule_map = rule_map;
